@@ -117,7 +117,7 @@ func H_C14_prune() {
 	symAssert((c.Un != nil) == (c.Un == UnionUint16(0)), "a set union leaf must stay even when it holds a zero value")
 	symAssert(c.St == nil || len(c.St.Ul) == 1, "unkeyed list entries must stay")
 	// idempotence
-	snap, _ := ygot.DeepCopy(c)
+	snap := symSnapshot(c)
 	ygot.PruneEmptyBranches(c)
 	symAssert(reflect.DeepEqual(c, snap), "a second call must change nothing")
 }
@@ -137,7 +137,7 @@ func H_C14_buildempty() {
 		k := "k"
 		c.Ks = map[string]*V_C_Ks{k: {Name: &k}}
 	}
-	snap, _ := ygot.DeepCopy(c)
+	snap := symSnapshot(c)
 	ygot.BuildEmptyTree(c)
 	symAssert(c.D != nil && c.Pc != nil && c.St != nil, "BuildEmptyTree initialises every container")
 	ygot.PruneEmptyBranches(c)
